@@ -91,6 +91,11 @@ type stepCtx struct {
 	target  string
 	clock   time.Time
 	faulted bool
+	// a file was changed by somebody else while the process ran (pause)
+	midEdit       *EditFault
+	midEditBytes  string // content of the target right after the edit ("\x00absent" if removed)
+	readsAtEdit   int
+	writesAtEdit  int
 }
 
 func (c *stepCtx) report(prop, rule, site, detail string) {
@@ -162,6 +167,13 @@ func (histEngine) execute(sc *Scenario) *Outcome {
 		before := hw.snapshot()
 		spec := &ProcSpec{Argv: resolveArgv(op.Argv, root), Tape: op.Tape, MapTape: op.MapTape, MapOrder: op.MapOrder, Plan: op.Plan,
 			Base: clock, ZoneMin: w.ZoneMin, Root: root, Stdin: op.Stdin, Cpus: cpus, Env: env, Steps: op.Steps, LongRun: op.Kind == "pause"}
+		c := &stepCtx{sc: sc, hc: hc, out: out, i: i, op: op}
+		spec.OnEdit = func(e *EditFault, reads, writes int) {
+			applyEdit(hw, e, out)
+			c.midEdit, c.readsAtEdit, c.writesAtEdit = e, reads, writes
+			c.midEditBytes = hw.snapshot()[targetName(op, w)]
+			out.stat("fired_mid_run_edit", 1)
+		}
 		res := runProc(spec)
 		after := hw.snapshot()
 		out.Procs++
@@ -177,7 +189,7 @@ func (histEngine) execute(sc *Scenario) *Outcome {
 		for k, v := range res.Fired {
 			out.stat("fired_"+k, v)
 		}
-		c := &stepCtx{sc: sc, hc: hc, out: out, i: i, op: op, res: &res, before: before, after: after, target: targetName(op, w), clock: spec.Base}
+		c.res, c.before, c.after, c.target, c.clock = &res, before, after, targetName(op, w), spec.Base
 		// An injected kill or torn write ends the process: no claim for that step. An injected
 		// I/O *error* (failed write, read, open, rename, close, sync) may legitimately be handled
 		// (retry, fall-back to another write strategy): if klog nevertheless reports success the
@@ -289,6 +301,10 @@ func (c *stepCtx) judge() {
 		return
 	}
 
+	if c.midEdit != nil {
+		c.judgeMidEdit()
+		return
+	}
 	beforeT, hasTarget := c.before[c.target]
 	afterT := c.after[c.target]
 	prevState, prevValid := MState(nil), false
@@ -501,6 +517,47 @@ func (c *stepCtx) probes(mc *modelCtx, matched *MOutcome, prev MState) {
 	}
 	if op.Args.Resume || op.Args.ResumeNth != 0 {
 		st("resume_accepted")
+	}
+}
+
+// judgeMidEdit: somebody else changed the target while `klog pause` was running (C05).
+//   - the edit left an invalid / missing file: klog must not write anything after it, and if it
+//     tried to update the pause after the edit it must end with a failure status;
+//   - the edit left a valid file: whatever klog wrote afterwards must be that file plus pause
+//     edits (no stale content written back), and the file must still parse.
+func (c *stepCtx) judgeMidEdit() {
+	res := c.res
+	if c.faulted || res.Killed {
+		return
+	}
+	E, A := c.midEditBytes, c.after[c.target]
+	triedAfter := res.Reads > c.readsAtEdit
+	wroteAfter := res.Writes > c.writesAtEdit
+	c.out.stat("mid_run_edit_judged", 1)
+	if triedAfter {
+		c.out.stat("mid_run_edit_seen_by_klog", 1)
+	}
+	_, eValid := parseState(E)
+	if c.sc.Property == "C05" {
+		c.out.Distinct = append(c.out.Distinct, fnv("midedit|"+E+"|"+A))
+	}
+	if !eValid {
+		if A != E {
+			c.report("C05", "wrote-over-invalid-edit", "pause", fmt.Sprintf("the file was changed into something unparseable while pause ran; klog must leave it alone but the bytes changed: %q -> %q", shortText(E, 300), shortText(A, 300)))
+		}
+		if triedAfter && !res.Failed {
+			c.report("C05", "failure-exit-0", "pause", "pause could not update the (now unparseable / missing) file but ended with exit status 0")
+		}
+		return
+	}
+	if _, ok := parseState(A); !ok {
+		c.report("C05", "success-invalid-file", "pause", fmt.Sprintf("after an edit by somebody else during the pause the file no longer parses: %q", shortText(A, 300)))
+		return
+	}
+	if wroteAfter || A != E {
+		if r := checkC03("pause", E, A); !r.ok {
+			c.report("C05", "stale-content-written-back", "pause", fmt.Sprintf("the file was edited while pause ran; what klog wrote afterwards is not that file plus pause edits (%s): edited=%q after=%q", r.detail, shortText(E, 300), shortText(A, 300)))
+		}
 	}
 }
 
